@@ -47,8 +47,141 @@ def okShape (s : List Nat) : Bool := decide (2 ≤ s.length) && decide (s.length
 def arrOut (a : Arr Float) : Json :=
   Json.mkObj [("shape", jNats a.shape), ("data", jFloats a.toList)]
 
+def optNat (j : Json) (k : String) : Except String (Option Nat) := do
+  let v ← j.getObjVal? k
+  match v with
+  | .null => pure none
+  | _ => pure (some (← v.getNat?))
+
+def optStr (j : Json) (k : String) : Except String (Option String) := do
+  let v ← j.getObjVal? k
+  match v with
+  | .null => pure none
+  | _ => pure (some (← v.getStr?))
+
+/-- an n-D array `{"shape": [...], "data": [[p, q], ...]}` (row-major) -/
+def arrIn (j : Json) (k : String) : Except String (Arr Float) := do
+  let v ← j.getObjVal? k
+  let s ← getNatList v "shape"
+  let d ← floatList v "data"
+  if d.length ≠ prodL s then throw "BadArg:array-size"
+  pure ⟨s, d.toArray⟩
+
+def jOptNat : Option Nat → Json
+  | none => Json.null
+  | some n => jNat n
+
 def handle (op : String) (a : Json) : Option R :=
   match op with
+  | "c12.bins" => some do
+      let s ← getNatList a "shape"
+      if !okShape s then throw "BadArg:shape"
+      let nb := nBins s (← optNat a "n_bins")
+      if nb = 0 then throw "BadArg:n_bins"
+      pure (Json.mkObj [("n_bins", jNat nb), ("max_bins", jNat (maxBins s)),
+        ("bins", jNats (binsArr floatOps s nb).toList),
+        ("voxel_bins", jNats ((allIdx s).map (binOfVoxel floatOps s nb)))])
+  | "c12.whitennone" => some do
+      let s ← getNatList a "shape"
+      let spec ← floatList a "spectrum"
+      let nb ← getNat a "n_bins"
+      if !okShape s ∨ nb = 0 then throw "BadArg:shape"
+      pure (arrOut (whitenNone floatOps spec.toArray s nb))
+  | "c12.stepvol" => some do
+      let s ← getNatList a "shape"
+      let o ← getNat a "opening"; let t ← getNat a "tilt"
+      if !okShape s ∨ o ≥ s.length ∨ t ≥ s.length ∨ o = t then throw "BadArg:axes"
+      let plane ← arrIn a "plane"
+      if plane.shape.length ≠ 2 then throw "BadArg:plane"
+      pure (Json.mkObj [("plane_shape", jNats (planeShape s o t)), ("row", jNat (planeRow s o)),
+        ("volume", arrOut (stepVolume floatOps plane s o t (← reqFloat a "wmax")))])
+  | "c12.wedgetail" => some do
+      let vol ← arrIn a "vol"
+      if !okShape vol.shape then throw "BadArg:shape"
+      let args : WTail Float := ⟨vol.shape, ← optFloat a "cutoff", ← getBool a "weight_wedge", ← getBool a "rrf"⟩
+      pure (arrOut (wedgeTail floatOps vol args))
+  | "c12.contvol" => some do
+      let s ← getNatList a "shape"
+      let o ← getNat a "opening"; let t ← getNat a "tilt"
+      if !okShape s ∨ o ≥ s.length ∨ t ≥ s.length ∨ o = t then throw "BadArg:axes"
+      let args : WArgs Float := ⟨s, ← reqFloat a "start", ← reqFloat a "stop", ← reqFloat a "big", o, t, none, false⟩
+      pure (arrOut (contVolume floatOps args))
+  | "c12.tiltplane" => some do
+      let s ← getNatList a "shape"
+      if s.isEmpty ∨ !s.all (fun n => decide (2 ≤ n)) then throw "BadArg:shape"
+      pure (arrOut (tiltPlaneZero floatOps s (← reqFloat a "w") (← optFloat a "cutoff")))
+  | "c12.tiltfn" => some do
+      let s ← getNatList a "shape"
+      if s.isEmpty ∨ !s.all (fun n => decide (2 ≤ n)) then throw "BadArg:shape"
+      let c ← optFloat a "cutoff"
+      match (← getStr a "kind") with
+      | "relion" => pure (arrOut (tiltPlaneFn floatOps s (relionVal floatOps (← reqFloat a "sigma") (← reqFloat a "cos")) c))
+      | "grigorieff" => pure (arrOut (tiltPlaneFn floatOps s
+          (grigorieffVal floatOps (← reqFloat a "w") (← reqFloat a "amplitude") (← reqFloat a "power") (← reqFloat a "offset")) c))
+      | _ => throw "BadArg:kind"
+  | "c12.tilted" => some do
+      let s ← getNatList a "shape"
+      let op ← getNat a "opening"
+      if s.length ≠ 3 ∨ op ≥ 3 ∨ !s.all (fun n => decide (2 ≤ n)) then throw "BadArg:shape"
+      let rows ← (← getArr a "matrix").toList.mapM (fun r => do (← r.getArr?).toList.mapM ratFloat)
+      if rows.length ≠ 3 ∨ !rows.all (fun r => r.length == 3) then throw "BadArg:matrix"
+      let c ← optFloat a "cutoff"
+      let val ← match (← getStr a "kind") with
+        | "grid" => pure (fun (r : Float) => r)
+        | "const" => do let w ← reqFloat a "w"; pure (fun (_ : Float) => w)
+        | "relion" => do pure (relionVal floatOps (← reqFloat a "sigma") (← reqFloat a "cos"))
+        | "grigorieff" => do
+            pure (grigorieffVal floatOps (← reqFloat a "w") (← reqFloat a "amplitude") (← reqFloat a "power") (← reqFloat a "offset"))
+        | _ => throw "BadArg:kind"
+      pure (arrOut (tiltedPlane floatOps rows s op val c))
+  | "c12.recfilter" => some do
+      let ps ← getNatList a "plane_shape"
+      if ps.length ≠ 2 ∨ !ps.all (fun n => decide (2 ≤ n)) then throw "BadArg:shape"
+      let kind := recFilterKind (← getStr a "filter_type")
+      let arr ← match kind with
+        | some "ramp" => pure (some (recFilterRamp floatOps ps (← reqFloat a "scale")))
+        | some "ramp-cont" => pure none
+        | some _ => pure (some (recFilterRadial floatOps ps (fun r => r)))
+        | none => pure none
+      pure (Json.mkObj [("kind", match kind with | none => Json.null | some k => jStr k),
+        ("array", match arr with | none => Json.null | some x => arrOut x)])
+  | "c12.binshape" => some do
+      pure (Json.mkObj [("shape", jNats (binShape (← getNatList a "shape") (← optNat a "batch"))),
+        ("rank", jNat (maskRank (← getNatList a "shape").length (← optNat a "batch")))])
+  | "c12.stepweights" => some do
+      pure (jBool (stepWeightsFromCos (← getBool a "weight_wedge") (← getBool a "wedge_weights_given")))
+  | "c12.wedgecall" => some do
+      let p := wedgeCallPlan (← getStr a "func") (← getNat a "n_self") (← getNat a "n_call") (← getBool a "cutoff")
+      pure (Json.mkObj [("raises", jBool p.raises), ("planes", jNat p.nPlanes), ("reported", jNat p.nReported),
+        ("cut", Json.arr (p.cut.map jBool).toArray)])
+  | "c12.wedgeplan" => some do
+      let s ← getNatList a "shape"
+      let wt ← optStr a "weight_type"
+      pure (Json.mkObj [("func", match wedgeWeightFunc wt with | none => Json.null | some f => jStr f),
+        ("replaced", jBool (wedgeWeightsReplaced wt)),
+        ("stack", jNats (wedgeStackShape s (← getNat a "opening") (← getNat a "n")))])
+  | "c12.ctfplan" => some do
+      let s ← getNatList a "shape"
+      let p := ctfPlan s (← optNat a "opening") (← getNat a "n_angles") (← getNat a "n_self") (← getNat a "n_defocus")
+        (← getBool a "rrf")
+      pure (Json.mkObj [("shape", jNats p.shape), ("shifted", jBool p.shifted), ("cropped", jBool p.cropped),
+        ("opening", jOptNat p.opening)])
+  | "c12.radialone" => some do
+      let s ← getNatList a "shape"
+      if !okShape s then throw "BadArg:shape"
+      pure (arrOut (radialMaskOne floatOps s (← getBool a "rrf") (fun r => r)))
+  | "c12.meta" => some do
+      let c ← match (← getStr a "cls") with
+        | "BandPassFilter" => pure Cls.bandpass | "LinearWhiteningFilter" => pure Cls.whitening
+        | "WedgeReconstructed" => pure Cls.wedgeRec | "Wedge" => pure Cls.wedge | "CTF" => pure Cls.ctf
+        | "ReconstructFromTilt" => pure Cls.reconstruct | _ => throw "BadArg:cls"
+      pure (Json.mkObj [("emits", Json.arr ((emits c).map jStr).toArray), ("mult", jBool (multFlag c)),
+        ("reads_sirf", jBool (readsSirf c))])
+  | "c12.pp" => some do
+      let (g, r) := ppBandpass (← getBool a "sigma_is_zero") (← getBool a "omit_negative")
+      let (c, w, r2) := ppWedge (← getBool a "infinite_plane") (← getBool a "has_weights") (← getBool a "omit_negative")
+      pure (Json.mkObj [("use_gaussian", jBool g), ("bp_rrf", jBool r), ("cutoff", jBool c), ("weight_wedge", jBool w),
+        ("wedge_rrf", jBool r2)])
   | "c12.axis" => some do
       let n ← getNat a "n"
       if n = 0 then throw "BadArg:n"
